@@ -19,7 +19,8 @@
      need       whether a check group still runs in its phase is decided from mem when its scope is entered:
                   plan bypass, pre, initial continuous run: always (repeated on every recovery);
                   plan post / deferred: unless Completed or Failed (isCompleted);
-                  block bypass: unless Failed;  block pre and the initial continuous run: unless pre Completed;
+                  block bypass: unless Failed;  block pre and the initial continuous run: unless pre Completed and
+                  (no continuous group or it is Completed too);
                   block post / deferred: unless Completed (checksCompleted).
                 A group that does not run any more is given one closed pseudo-run with the verdict mem shows, so
                 that the engine's own epsilon-moves (once_done) pass over it unchanged.
@@ -277,7 +278,10 @@ Definition plan_gtab (sh : shape) (m : memory) : gtab :=
 
 Definition block_gtab (bs : bshape) (m : memory) (b : nat) : gtab :=
   let stt g := mst m (OChecks (SBlock b) g) in
-  let pre_done := present (g_pre (bs_groups bs)) && status_eqb (stt GPre) Completed in
+  (* BlockPreChecks (after fix 0c944e8): skipped only if the pre group is Completed AND the initial run of the
+     continuous group (if there is one) has Completed too; otherwise BOTH groups run again *)
+  let pre_done := present (g_pre (bs_groups bs)) && status_eqb (stt GPre) Completed
+                  && (negb (present (g_cont (bs_groups bs))) || status_eqb (stt GCont) Completed) in
   {| t_bypass := if status_eqb (stt GBypass) Failed then skipped false else g0;
      t_pre := if pre_done then skipped true else g0;
      t_cont := if pre_done then skipped true else g0;
